@@ -403,10 +403,17 @@ func initRollingFileLogger(
 		normalMaxLevel = WarnLevel
 	}
 
+	// The appenders format events themselves when the logger has no layout.
+	layout := f.Layout
+	if layout == nil {
+		layout = &TextLayout{BaseLayout: BaseLayout{FileLineLength: 48}}
+	}
+
 	// Create appenders for the normal log file
 	appenders := []*AppenderRef{
 		{
 			Appender: &RollingFileAppender{
+				Layout:   layout,
 				FileDir:  f.FileDir,
 				FileName: f.FileName,
 				Rotation: f.Rotation,
@@ -423,6 +430,7 @@ func initRollingFileLogger(
 	if f.Separate {
 		appenders = append(appenders, &AppenderRef{
 			Appender: &RollingFileAppender{
+				Layout:   layout,
 				FileDir:  f.FileDir,
 				FileName: f.FileName + ".wf",
 				Rotation: f.Rotation,
@@ -452,6 +460,13 @@ func initRollingFileLogger(
 			return err
 		}
 	}
+	if err := f.logger.Start(); err != nil {
+		for _, a := range f.appenders {
+			a.Stop()
+		}
+		f.logger = nil
+		return err
+	}
 	return nil
 }
 
@@ -465,8 +480,11 @@ func (f *RollingFileLogger) Write(b []byte) {
 	f.logger.Write(b)
 }
 
-// Stop stops all appenders.
+// Stop flushes the underlying logger and stops all appenders.
 func (f *RollingFileLogger) Stop() {
+	if f.logger != nil {
+		f.logger.Stop()
+	}
 	for _, a := range f.appenders {
 		a.Stop()
 	}
